@@ -23,7 +23,7 @@ SPEC_DIR = tlc.SPEC / "concat"
 ALL_DEV = ["RenameKeepsLabel", "WsRemoveKeepsChild", "HoleRemovalKeepsObjectRows", "HoleRemovalKeepsGroupChild",
            "StalePgIdCache", "EmptyTableRaises", "TableByLabel"]
 # (cfg, format version, number of paths replayed: None = the complete path cover, n = seeded sample)
-EXPORTS = {"quick": [("DrillholeConcatExportQuick.cfg", 21, 1800), ("DrillholeConcatExportDeep.cfg", 21, None),
+EXPORTS = {"quick": [("DrillholeConcatExportQuick.cfg", 21, 1200), ("DrillholeConcatExportDeep.cfg", 21, 900),
                      ("DrillholeConcatExportQuick20.cfg", 20, None)],
            "thorough": [("DrillholeConcatExportQuick.cfg", 21, None), ("DrillholeConcatExportDeep.cfg", 21, None),
                         ("DrillholeConcatExportQuick20.cfg", 20, None), ("DrillholeConcatExportThorough20.cfg", 20, 2500),
@@ -110,18 +110,18 @@ def _items(g, init, paths, version):
     return items
 
 
+def _step_devs(lab, st):
+    devs = set(lab.get("dev") or [])
+    if not st["s"]["broken"]:
+        devs |= {d for d in (table_deviation(t) for t in st["tables"].values()) if d}
+    return devs
+
+
 def _witness_paths(g, init):
-    """For every deviation: a shortest path to the first transition / state that exhibits it with no
-    other deviation exercised before (so its presence in the implementation can be decided alone)."""
+    """For every deviation a shortest path to the first step (transition + state reached) that exhibits it."""
     outs = {}
-    for i, (s, d, lab) in enumerate(g.edges):
+    for i, (s, _, _) in enumerate(g.edges):
         outs.setdefault(s, []).append(i)
-
-    def state_devs(st):
-        if st["s"]["broken"]:
-            return set()
-        return {d for d in (table_deviation(t) for t in st["tables"].values()) if d}
-
     found = {}
     pred = {init[0]: None}
     dq = deque([init[0]])
@@ -129,36 +129,45 @@ def _witness_paths(g, init):
         u = dq.popleft()
         for i in outs.get(u, []):
             _, v, lab = g.edges[i]
-            devs = set(lab.get("dev") or []) | state_devs(g.states[v])
-            if devs:
-                if len(devs) == 1:
-                    d = next(iter(devs))
-                    if d not in found:
-                        path = [i]
-                        w = u
-                        while pred[w] is not None:
-                            path.append(pred[w])
-                            w = g.edges[pred[w]][0]
-                        found[d] = path[::-1]
-                continue  # do not walk through a deviation
+            new = _step_devs(lab, g.states[v]) - set(found)
+            if new:
+                path = [i]
+                w = u
+                while pred[w] is not None:
+                    path.append(pred[w])
+                    w = g.edges[pred[w]][0]
+                for d in new:
+                    found[d] = path[::-1]
             if v not in pred:
                 pred[v] = i
                 dq.append(v)
     return found
 
 
-def _probe(g, init, version):
-    """Which of the named deviations does the implementation show?  (witness path replayed alone)"""
-    wit = _witness_paths(g, init)
-    items = _items(g, init, [wit[d] for d in sorted(wit)], version)
-    for it in items:
-        it["tail"] = None
-    res = pmap(replay_path, items)
-    present = set()
-    for d, r in zip(sorted(wit), res):
-        if not r["violations"] and any(sig == f"asbuilt:{d}" for sig, _ in r["findings"]):
-            present.add(d)
-    return present, set(wit)
+def _probe(work):
+    """Which named deviations does the implementation show?  Witness paths of the probe graph are replayed;
+    a mismatch at a step that exhibits deviations means those are not (all) present: they are switched off
+    and the probe is repeated with the smaller set."""
+    devs = set(ALL_DEV)
+    for _ in range(len(ALL_DEV) + 1):
+        res, g, init = _export("DrillholeConcatProbe.cfg", sorted(devs), work)
+        wit = _witness_paths(g, init)
+        if set(wit) != devs:
+            raise MachineryError(f"probe graph has no witness for {sorted(devs - set(wit))}")
+        paths = sorted({tuple(p) for p in wit.values()})
+        items = _items(g, init, [list(p) for p in paths], 21)
+        for it in items:
+            it["tail"] = None
+        out = pmap(replay_path, items)
+        absent = set()
+        for it, r in zip(items, out):
+            k = r["mismatch_step"]
+            if k is not None and k <= len(it["steps"]):
+                absent |= _step_devs(it["steps"][k - 1]["edge"], it["steps"][k - 1]["state"])
+        if not absent:
+            return devs
+        devs -= absent
+    raise MachineryError("probe did not converge")
 
 
 def _replay_graph(g, init, version, seed, limit):
@@ -201,14 +210,9 @@ def run(tier, seed):
                 f_single[d] = _Bg(f"DrillholeConcatNeg_{d}.cfg", 1, "2g")
                 bg.append(f_single[d])
         # (3) conformance: export the graph for the deviations the implementation shows, replay a path cover
+        devs_used = _probe(work)
         for cfg, version, limit in EXPORTS[tier]:
-            devs = list(ALL_DEV) if devs_used is None else sorted(devs_used)
-            res, g, init = _export(cfg, devs, work)
-            if devs_used is None:
-                present, witnessed = _probe(g, init, version)
-                devs_used = {d for d in ALL_DEV if d in present or d not in witnessed}
-                if devs_used != set(ALL_DEV):
-                    res, g, init = _export(cfg, sorted(devs_used), work)
+            res, g, init = _export(cfg, sorted(devs_used), work)
             items, out, full, wall = _replay_graph(g, init, version, seed, limit)
             exhaustive = exhaustive and full
             states += res.distinct
